@@ -283,8 +283,16 @@ pub fn run(ctx: &Ctx) -> Result<(), String> {
             let n = al.len().pow(depth as u32);
             let stride = if si < 2 { 1 } else { 37 };
             let mut idx = restart;
-            while idx < n {
-                let h = c09::history_from_index(idx, depth, &al);
+            // plus histories in which a socket sends several requests of one protocol (the request
+            // pool then also offers [0, draft-13] in VER)
+            let extra: Vec<Vec<c09::Ev>> = vec![
+                vec![c09::Ev::Req(0, Version::Ietf13); 4],
+                vec![c09::Ev::Req(0, Version::Ietf13), c09::Ev::Req(0, Version::Ietf13), c09::Ev::Step, c09::Ev::Req(0, Version::Ietf13), c09::Ev::Req(1, Version::Classic)],
+                vec![c09::Ev::Req(1, Version::Classic); 4],
+            ];
+            let mut extra_i = 0;
+            while idx < n || extra_i < extra.len() {
+                let h = if idx < n { c09::history_from_index(idx, depth, &al) } else { extra_i += 1; extra[extra_i - 1].clone() };
                 idx += stride;
                 let mut srv = match Srv::new(&cfg) {
                     Ok(s) => s,
@@ -302,9 +310,12 @@ pub fn run(ctx: &Ctx) -> Result<(), String> {
                 let _ = c09::judge(&mut obs, &want_pk, false);
                 // every datagram received is examined, whether or not C09's matching accepted it
                 for (s, rs) in obs.received.iter().enumerate() {
+                    // the protocol a reply must belong to is the protocol of the REQUEST: when a socket
+                    // sent requests of one protocol only, everything it receives is judged under it
+                    let sent_versions: std::collections::BTreeSet<Version> = obs.sent.iter().filter(|x| x.sock == s).filter_map(|x| x.version).collect();
                     for (reply, _) in rs {
                         let framed = reply.len() >= 12 && &reply[..8] == codec::FRAME_MAGIC;
-                        let v = if framed { Version::Ietf13 } else { Version::Classic };
+                        let v = if sent_versions.len() == 1 { *sent_versions.iter().next().unwrap() } else if framed { Version::Ietf13 } else { Version::Classic };
                         let payload = if framed { &reply[12..] } else { &reply[..] };
                         // lenient parse: fault injection may have shuffled the tag order
                         let fields = match codec::decode_lenient(payload) {
